@@ -379,6 +379,46 @@ def oraclePSq (pw xsw stw : List String) : Option Verdict := do
   if okq && okn && okm then pure .ok
   else pure (.fail s!"psq: spec q={r.q.toList} n={r.n.toList} impl q={s.q.toList} n={s.n.toList}")
 
+/-- the generated stream of `O psqgen`: a 64-bit linear congruential generator, the top 53 bits as a fraction
+    of one, times `scale` (one rounding) - the harness computes the very same binary64 values -/
+def genStep (a c x : UInt64) : UInt64 := a * x + c
+def genVal (x : UInt64) (scale : Float) : Float := (x >>> 11).toFloat * u53 * scale
+
+def psqGenLoop (a c : UInt64) (scale : Float) : Nat → UInt64 → Spec.PSq Float → Spec.PSq Float
+  | 0, _, s => s
+  | k + 1, x, s =>
+    let x' := genStep a c x
+    psqGenLoop a c scale k x' (Spec.psqStep s (genVal x' scale))
+
+def genFirst (a c : UInt64) (scale : Float) : Nat → UInt64 → List Float × UInt64
+  | 0, x => ([], x)
+  | k + 1, x =>
+    let x' := genStep a c x
+    let (l, xe) := genFirst a c scale k x'
+    (genVal x' scale :: l, xe)
+
+/-- `O psqgen | p | a c x0 n scale | q n (state words)`: the P² specification run at binary64 over a generated
+    stream of `n ≥ 5` observations (streams far too long to be written out) -/
+def oraclePSqGen (pw gw stw : List String) : Option Verdict := do
+  let p ← run pF pw
+  match gw with
+  | [aw, cw, xw, nw, sw] =>
+    let a ← (aw.drop 1).toString.toNat?
+    let c ← (cw.drop 1).toString.toNat?
+    let x0 ← (xw.drop 1).toString.toNat?
+    let n ← (nw.drop 1).toString.toNat?
+    let scale ← parseF sw
+    let s ← run pQuantile stw
+    if n < 5 then none
+    let (first, x5) := genFirst a.toUInt64 c.toUInt64 scale 5 x0.toUInt64
+    let r := psqGenLoop a.toUInt64 c.toUInt64 scale (n - 5) x5 (Spec.psqInit p first)
+    let okq := (r.q.toList.map wF) == (s.q.toList.map wF)
+    let okn := r.n.toList == s.n.toList
+    let okm := (r.np.toList.map wF) == (s.m.toList.map wF)
+    if okq && okn && okm then pure .ok
+    else pure (.fail s!"psqgen: spec q={r.q.toList} n={r.n.toList} impl q={s.q.toList} n={s.n.toList}")
+  | _ => none
+
 /-- `O hfind | ranges | x | res`: the unique half-open bin -/
 def oracleHFind (rw xw resw : List String) : Option Verdict := do
   let r ← rw.mapM parseF
